@@ -249,14 +249,7 @@ def _ast_to_schema(ck, repo):
             ck.ob(f"{c.name}: the default of `{attr}` ({'list' if isinstance(lit, ast.List) else 'dict'}) agrees with how bake merges it", not bad, c.methods["__init__"],
                   c.methods["__init__"].node, construct=f"extension:{c.name}:default:{attr}",
                   detail=f"methods used: {sorted(used)}; a mismatch raises inside bake, GraphQLSchema.bake swallows it and every later extension is silently dropped")
-    se = repo.func("tartiflette/types/schema_extension.py", "GraphQLSchemaExtension.bake")
-    sev = FuncView(se)
-    sd = sev.maybe_call("add_schema_directives")
-    sa_ = [c for c in sev.calls("setattr")]
-    lp = sev.enclosing(sa_[0], (ast.For,)) if sa_ else None
-    ok = sd is not None and [unparse(a) for a in sd.args] == ["self.directives"] and len(sa_) == 1 and lp is not None and unparse(lp.iter) == "self.operations.items()" and \
-        [unparse(a) for a in sa_[0].args] == [se.positional_params[1], "f'{okind}_operation_name'", "otype"]
-    ck.ob("GraphQLSchemaExtension.bake adds the extension's directives and sets every extended root operation name", ok, se, se.node, construct="extension:schema:merges")
+    schema_extension_merges(ck, repo)
     sb = repo.func("tartiflette/schema/schema.py", "GraphQLSchema._bake_extensions")
     sv = FuncView(sb)
     lp = [l for l in sv.loops() if isinstance(l, ast.For) and unparse(l.iter) == "self.extensions"]
@@ -461,6 +454,38 @@ def _deprecation_and_hiding(ck, repo):
     ck.ob("resolved introspection elements pass through the hiding executor", ok, f, c or f.node, construct="hidden:applied")
 
 
+def schema_extension_merges(ck, repo):
+    """`extend schema` reaches the schema object unconditionally, so that introspection shows it and the root-type
+    existence check (C12) sees the names it introduces."""
+    se = repo.func("tartiflette/types/schema_extension.py", "GraphQLSchemaExtension.bake")
+    sev = FuncView(se)
+    sd = sev.maybe_call("add_schema_directives")
+    sa_ = [c for c in sev.calls("setattr")]
+    lp = sev.enclosing(sa_[0], (ast.For,)) if sa_ else None
+    ok = sd is not None and [unparse(a) for a in sd.args] == ["self.directives"] and len(sa_) == 1 and lp is not None and unparse(lp.iter) == "self.operations.items()" and \
+        [unparse(a) for a in sa_[0].args] == [se.positional_params[1], "f'{okind}_operation_name'", "otype"] and not sev.conditions(sa_[0]) and not sev.conditions(sd) and \
+        not sev.enclosing_loops(sd) and not any(isinstance(n, (ast.Break, ast.Continue, ast.Return)) for n in walk_no_nested(lp))
+    ck.ob("GraphQLSchemaExtension.bake adds the extension's directives and sets every extended root operation name, unconditionally", ok, se, se.node, construct="extension:schema:merges")
+    ad = repo.func("tartiflette/schema/schema.py", "GraphQLSchema.add_schema_directives")
+    av = FuncView(ad)
+    ext = [c for c in av.calls("extend") if unparse(c.func.value) == "self._schema_directives"]
+    writes = [n for n in walk_no_nested(ad.node) if isinstance(n, (ast.Assign, ast.AugAssign)) and any(unparse(t) == "self._schema_directives" for t in (n.targets if isinstance(n, ast.Assign) else [n.target]))]
+    aug = [n for n in writes if isinstance(n, ast.AugAssign) and isinstance(n.op, ast.Add)]
+    ok = ((len(ext) == 1 and [unparse(a) for a in ext[0].args] == [ad.positional_params[1]] and not av.conditions(ext[0]) and not writes) or
+          (not ext and len(writes) == 1 and len(aug) == 1 and not av.conditions(aug[0])))
+    ck.ob("GraphQLSchema.add_schema_directives accumulates (schema definition first, then each `extend schema`): earlier directives are kept", ok, ad, ad.node,
+          construct="extension:schema:directives-accumulate")
+    init = repo.cls("tartiflette/schema/schema.py", "GraphQLSchema").self_attrs()
+    ck.ob("GraphQLSchema starts with an empty list of schema directives of its own", unparse(init.get("_schema_directives")) in ("[]", "list()"), ad, ad.node,
+          construct="extension:schema:directives-init")
+    users = sorted(f.qualname for f in repo.all_funcs() if any(isinstance(n, ast.Attribute) and n.attr == "_schema_directives" for n in walk_no_nested(f.node)))
+    ck.ob("the schema directives are written through add_schema_directives only", users == ["GraphQLSchema.__init__", "GraphQLSchema._validate_directive_implementation", "GraphQLSchema.add_schema_directives",
+                                                                                              "GraphQLSchema.bake_execute"] or
+          all(not any(isinstance(n, (ast.Assign, ast.AugAssign)) and "_schema_directives" in unparse(n.targets[0] if isinstance(n, ast.Assign) else n.target) for n in walk_no_nested(f.node))
+              for f in repo.all_funcs() if f.qualname not in ("GraphQLSchema.__init__", "GraphQLSchema.add_schema_directives")), ad, ad.node, construct="extension:schema:directives-writers",
+          detail=str(users))
+
+
 def _sdl_assembly(ck, repo):
     f = repo.func("tartiflette/schema/registry.py", "SchemaRegistry.register_sdl")
     fv = FuncView(f)
@@ -492,6 +517,23 @@ def _sdl_assembly(ck, repo):
     pats = sorted(unparse(c.args[0]) for c in g)
     ck.ob("register_sdl: a directory contributes its *.sdl and *.graphql files, recursively", len(g) == 2 and all(arg_text(c, None, "recursive") == "True" for c in g) and
           "**/*.sdl" in pats[1] + pats[0] and "**/*.graphql" in pats[0] + pats[1], f, g[0] if g else f.node, construct="sdl:directory-glob", detail=str(pats))
+    # a `#` comment ends at the line break: pieces glued without one lose the next piece's first line
+    au = [n for n in walk_no_nested(lp) if isinstance(n, ast.AugAssign) and unparse(n.target) == "full_sdl"] if lp is not None else []
+    ok = len(au) == 1 and isinstance(au[0].op, ast.Add) and isinstance(au[0].value, ast.BinOp) and isinstance(au[0].value.left, ast.Constant) and \
+        isinstance(au[0].value.left.value, str) and "\n" in au[0].value.left.value and rd and au[0].value.right is rd[0]
+    ck.ob("register_sdl: each file's content starts on a new line of the assembled SDL", ok, f, au[0] if au else f.node, construct="sdl:separator:files")
+    pieces = []
+    for fn_ in ("_import_builtins", "_import_modules"):
+        g_ = repo.func("tartiflette/engine.py", fn_)
+        for n in walk_no_nested(g_.node):
+            if isinstance(n, ast.Assign) and unparse(n.targets[0]) == "sdl" and isinstance(n.value, ast.Call) and isinstance(n.value.func, ast.Attribute) and n.value.func.attr == "format":
+                fmt = n.value.func.value
+                pieces.append((g_, n, isinstance(fmt, ast.Constant) and isinstance(fmt.value, str) and fmt.value.startswith("{sdl}\n") and fmt.value.endswith("{msdl}")))
+    ck.ob("every module's SDL starts on a new line of the modules SDL (so the modules SDL itself starts with a line break)", len(pieces) == 2 and all(p_[2] for p_ in pieces),
+          pieces[0][0] if pieces else None, pieces[0][1] if pieces else None, construct="sdl:separator:modules", where=None if pieces else "tartiflette/engine.py")
+    im = repo.func("tartiflette/engine.py", "_import_modules")
+    init_ = [n for n in walk_no_nested(im.node) if isinstance(n, ast.Assign) and unparse(n.targets[0]) == "sdl" and isinstance(n.value, ast.Constant)]
+    ck.ob("the modules SDL starts empty", len(init_) == 1 and init_[0].value.value == "", im, init_[0] if init_ else im.node, construct="sdl:separator:modules-init")
     e = repo.func("tartiflette/engine.py", "_import_builtins")
     ev = FuncView(e)
     ok = any(isinstance(n, ast.Assign) and unparse(n.targets[0]) == "sdl" and "msdl=await _bake_module(module, schema_name)" in unparse(n.value) for n in walk_no_nested(e.node))
